@@ -526,7 +526,15 @@ class CFG:
                 productions.append(
                     Production(new_variables_d_local[production.head],
                                body))
-            final_replacement[ter] = new_variables_d_local[cfg.start_symbol]
+            if cfg.start_symbol is None:
+                # No start symbol: the empty language
+                temp = Variable("#EMPTY" + SUBS_SUFFIX + str(idx))
+                new_vars.add(temp)
+                idx += 1
+                final_replacement[ter] = temp
+            else:
+                final_replacement[ter] = \
+                    new_variables_d_local[cfg.start_symbol]
             terminals = terminals.union(cfg.terminals)
         for production in self._productions:
             body = []
@@ -539,7 +547,7 @@ class CFG:
                     body.append(cfgobj)
             productions.append(Production(new_variables_d[production.head],
                                           body))
-        return CFG(new_vars, None, new_variables_d[self._start_symbol],
+        return CFG(new_vars, None, new_variables_d.get(self._start_symbol),
                    set(productions))
 
     def union(self, other: "CFG") -> "CFG":
